@@ -17,6 +17,11 @@ pub fn dispatch(a: &[String]) -> String {
       let y = FeelDate::new(i(&a[4]), i(&a[5]), i(&a[6]));
       format!("{}", x.ym_duration(&y).as_months())
     }
+    "zone_display" => {
+      // public face of FeelZone's Display: a time with that offset, zone suffix after hh:mm:ss
+      let t = dmntk_feel::FeelTime::offset(0, 0, 0, 0, i(&a[1]));
+      t.to_string()[8..].to_string()
+    }
     _ => format!("UNKNOWN-COMMAND {}", a[0]),
   }
 }
